@@ -1155,6 +1155,66 @@ def run_rules_deser(report, tier: str, seed: int):
             finally:
                 lab.done()
 
+    # -- B7b: several generic deserializers of one generic target, each with its own TypeVars ------
+    UV, VV, WV = typing.TypeVar("UV"), typing.TypeVar("VV"), typing.TypeVar("WV")
+    # (tag, source as a function of the type variable, the same source for a concrete argument)
+    shapes = {
+        "list": (lambda v: typing.List[v]),
+        "mapping": (lambda v: typing.Mapping[str, v]),
+        "optional": (lambda v: typing.Optional[v]),
+        "bare": (lambda v: v),
+        "nested": (lambda v: typing.List[typing.Dict[str, v]]),
+    }
+    # ("nested": the type variable two levels deep -- alone, so that its finding stays apart)
+    combos = [("list", "mapping"), ("mapping", "list"), ("list", "mapping", "bare"), ("bare", "list"), ("optional", "mapping"), ("mapping", "optional", "list"), ("nested",)]
+    for td in gen_args:
+        S = R(td)
+        base_data = pool(td, 6)
+        good = data_for(td, tier, rng)[1]
+        data = []
+        for d in base_data + ["x", 1, None]:
+            data += [d, [d], [copy.deepcopy(good), d], {"a": d}, {"a": copy.deepcopy(good), "b": d}, [{"k": d}], [{}]]
+        data += [[], {}]
+        for combo in combos:
+            for typevars in ("distinct", "shared"):
+                for mode in ("registered", "dynamic_tuple"):
+                    lab = Lab()
+                    try:
+
+                        class Box(typing.Generic[TV], Op):
+                            _logical = "Box"
+
+                        lab.track(Box)
+                        tvs = [UV, VV, WV] if typevars == "distinct" else [TV, TV, TV]
+                        convs = [Conversion((lambda s, tag=f"g{i}": Box(tag, s)), source=shapes[shape](tv), target=Box[tv]) for i, (shape, tv) in enumerate(zip(combo, tvs))]
+                        kw = {}
+                        if mode == "registered":
+                            for c in convs:
+                                deserializer(c)
+                        else:
+                            kw["conversion"] = tuple(convs)
+                        srcs_real = [shapes[shape](S) for shape in combo]
+                        seen_d = set()
+                        for d in data:
+                            if repr(d) in seen_d:
+                                continue
+                            seen_d.add(repr(d))
+                            exp: Tuple[str, Any] = ("err", None)
+                            for i, sr in enumerate(srcs_real):
+                                r = outcome(deserialize, sr, copy.deepcopy(d))
+                                if r[0] == "crash":
+                                    exp = ("skip", None)
+                                    break
+                                if r[0] == "ok":
+                                    exp = ("ok", Box(f"g{i}", r[1]))
+                                    break
+                            if exp[0] == "skip":
+                                continue
+                            got = outcome(deserialize, Box[S], copy.deepcopy(d), **kw)
+                            ck.check("generic-several" if combo != ("nested",) else "generic-nested-typevar", f"Box[{short(td)}]<-{'+'.join(combo)}:{typevars}:{mode}:{d!r}", got, exp, involved=("DeserializationVisitor._has_conversion", "subtyping_substitution", "ConversionUnionMethod"))
+                    finally:
+                        lab.done()
+
     # -- B8: lazy registered conversions and recursive conversions -------------------------------
     for td in [INT, STR, P.A] + ([Coll("list", INT), P.NODE] if tier == "thorough" else []):
         S = R(td)
@@ -1538,7 +1598,7 @@ def norm_schema(sch) -> Any:
     sch = copy.deepcopy(dict(sch))
     sch.pop("$schema", None)
     defs = sch.get("$defs", {})
-    local = {k for k in defs if k.startswith(("Op", "Holder", "Bag", "D1", "HD", "Wrapper", "Base", "Sub"))}
+    local = {k for k in defs if k.startswith(("Op", "Holder", "Bag", "D1", "HD", "Wrapper", "Base", "Sub", "Box"))}
 
     def rec(x, depth=0):
         if depth > 40:
@@ -1704,6 +1764,38 @@ def run_schemas(report, tier: str, seed: int):
                 ck.check("generic", f"{short(td)}:{fn.__name__}", got, exp)
         finally:
             lab.done()
+    # several generic deserializers (own TypeVars each): anyOf of the *specialised* sources
+    UV, VV = typing.TypeVar("UV"), typing.TypeVar("VV")
+    for td in srcs:
+        if isinstance(td, (Opt, Uni)):
+            continue
+        S = R(td)
+        for mode in ("registered", "dynamic_tuple"):
+            for order in (0, 1):
+                lab = Lab()
+                try:
+
+                    class Box(typing.Generic[UV], Op):
+                        pass
+
+                    lab.track(Box)
+                    convs = [Conversion(lambda s: Box("l", s), source=typing.List[UV], target=Box[UV]), Conversion(lambda s: Box("m", s), source=typing.Mapping[str, VV], target=Box[VV])]
+                    reals = [typing.List[S], typing.Mapping[str, S]]
+                    if order:
+                        convs.reverse()
+                        reals.reverse()
+                    kw = {}
+                    if mode == "registered":
+                        for c in convs:
+                            deserializer(c)
+                    else:
+                        kw["conversion"] = tuple(convs)
+                    got, exp = outcome(deserialization_schema, Box[S], **kw), outcome(deserialization_schema, typing.Union[reals[0], reals[1]])
+                    if exp[0] == "ok" and got[0] == "ok":
+                        got, exp = ("ok", norm_schema(got[1])), ("ok", norm_schema(exp[1]))
+                    ck.check("generic-several", f"Box[{short(td)}]:{mode}:order={order}", got, exp, involved=("DeserializationVisitor._has_conversion", "SchemaBuilder._visited_union"))
+                finally:
+                    lab.done()
     # identity bypass
     for form in ("identity", "expanded"):
         for fn, register in ((deserialization_schema, deserializer), (serialization_schema, serializer)):
